@@ -242,6 +242,46 @@ impl Drop for TempDir {
 thread_local! {
     static LAST_PANIC: RefCell<Option<(String, String)>> = const { RefCell::new(None) };
     static QUIET_PANICS: RefCell<bool> = const { RefCell::new(false) };
+    /// The case under test on this thread and how to serialise it (for the abort path below).
+    static CUR_CASE: std::cell::Cell<Option<(*const (), fn(*const ()) -> String)>> = const { std::cell::Cell::new(None) };
+}
+
+/// (property id, /verif root, seed, section) of the running check, for the abort path.
+static ABORT_CTX: Mutex<Option<(String, PathBuf, u64, String)>> = Mutex::new(None);
+
+fn ser_case<C: Serialize>(p: *const ()) -> String {
+    // SAFETY: `p` was taken from a `&C` that outlives the test call during which the hook can run
+    serde_json::to_string(unsafe { &*(p as *const C) }).unwrap_or_else(|_| "null".into())
+}
+
+/// A panic inside an `extern "C"` function of the C API cannot unwind: the runtime calls the
+/// panic hook once more ("panic in a function that cannot unwind") and aborts the process.
+/// `catch` never sees it, so the hook itself reports the violation with the unshrunk case.
+fn report_abort(original: Option<(String, String)>) -> ! {
+    use std::io::Write;
+    let (loc, msg) = original.unwrap_or(("?".into(), "?".into()));
+    let ctx = ABORT_CTX.lock().map(|g| g.clone()).unwrap_or(None);
+    let (id, root, seed, section) = ctx.unwrap_or(("?".into(), std::env::temp_dir(), 0, "?".into()));
+    let case: J = CUR_CASE
+        .with(|c| c.get())
+        .map(|(p, f)| serde_json::from_str(&f(p)).unwrap_or(J::Null))
+        .unwrap_or(J::Null);
+    let rf = ReplayFile {
+        property: id.clone(),
+        section: section.clone(),
+        seed,
+        signature: format!("abort:panic-in-extern-c@{loc}"),
+        message: format!("the process aborts: panic at {loc} inside a function that cannot unwind: {msg} (case not shrunk)"),
+        case,
+    };
+    let dir = root.join("replays").join(&id);
+    let _ = std::fs::create_dir_all(&dir);
+    let path = dir.join(format!("{section}-{seed}-abort-{:016x}.json", fp(&(rf.case.to_string(), &rf.signature))));
+    let _ = std::fs::write(&path, serde_json::to_string_pretty(&rf).unwrap_or_default());
+    println!("VIOLATION property={id} replay={}", path.display());
+    println!("  detail: {} :: {}", rf.signature, rf.message);
+    let _ = std::io::stdout().flush();
+    std::process::exit(1);
 }
 
 pub fn install_panic_hook() {
@@ -263,6 +303,9 @@ pub fn install_panic_hook() {
         } else {
             "<non-string panic>".to_string()
         };
+        if msg.contains("cannot unwind") {
+            report_abort(LAST_PANIC.with(|p| p.borrow_mut().take()));
+        }
         let quiet = QUIET_PANICS.with(|q| *q.borrow());
         LAST_PANIC.with(|p| *p.borrow_mut() = Some((loc, msg)));
         if !quiet {
@@ -371,13 +414,15 @@ impl RunCtx {
             .any(|k| k.status == "open" && k.signature.starts_with(sig_prefix))
     }
 
-    fn run_one<C>(
+    fn run_one<C: Serialize>(
         &self,
         c: &C,
         test: &(impl Fn(&C, &mut Obs) -> CaseResult + Sync),
     ) -> (CaseResult, Obs) {
         let mut obs = Obs::default();
+        CUR_CASE.with(|cur| cur.set(Some((c as *const C as *const (), ser_case::<C> as fn(*const ()) -> String))));
         let r = catch(|| test(c, &mut obs));
+        CUR_CASE.with(|cur| cur.set(None));
         let r = match r {
             Ok(r) => r,
             Err((loc, msg)) => Err(Failure::new(
@@ -440,6 +485,9 @@ impl RunCtx {
         C: std::fmt::Debug + Clone + Serialize + DeserializeOwned + Send,
         S: Strategy<Value = C>,
     {
+        if let Ok(mut g) = ABORT_CTX.lock() {
+            *g = Some((self.id.to_string(), self.verif_root.clone(), self.seed, section.to_string()));
+        }
         // ---- replay mode: only the named file
         if let Mode::Replay(path) = self.mode.clone() {
             let Ok(txt) = std::fs::read_to_string(&path) else {
